@@ -253,6 +253,7 @@ def check(run: Run) -> None:
     global DENSE
     DENSE = run.tier == "thorough"
     _x7_stateless(run)
+    _x8_points(run)
     info = _properties(run)
     S = _read_tables(run, SC, info, vectors=False)
     M = _read_tables(run, VC, info, vectors=True)
@@ -409,6 +410,85 @@ def check(run: Run) -> None:
                         good = False
         if not good:
             run.violate("X5", f"{modname}:fall-through", m, fall[0] if fall else m.tree, "the fall-through dispatch no longer raises TypeError when the two system types differ")
+
+
+def _x8_points(run: Run) -> None:
+    """X8: the coordinates a point is built from are the coordinates it has: AppliedPoint's preparation step EVALUATED on generic and on negative numeric coordinates, with base
+    scalars that carry the assumptions their system declares for them (read from _generate_base_scalars) - each base scalar is mapped to exactly the coordinate given for it"""
+    run.rule("X8", "AppliedPoint stores, for each base scalar of its system in order, exactly the coordinate it was given (no coercion by the scalar's assumptions)")
+    PTS = "symplyphysics.core.experimental.points"
+    if PTS not in run.src.mods:
+        raise AnalysisError("C15/X8: the points module is missing")
+    pm = run.src.need(PTS)
+    csm = run.src.need(CSYS)
+    prep = next((f_ for f_ in pm.tree.body if isinstance(f_, ast.FunctionDef) and f_.name == "_prepare"), None)
+    pcls = next((c_ for c_ in pm.tree.body if isinstance(c_, ast.ClassDef) and c_.name == "AppliedPoint"), None)
+    run.require(pcls is not None, "AppliedPoint not found")
+    # the assumptions each system declares for its base scalars
+    declared = {}
+    for c_ in [x for x in csm.tree.body if isinstance(x, ast.ClassDef) and x.name in CLASSES]:
+        gen = next((f_ for f_ in c_.body if isinstance(f_, ast.FunctionDef) and f_.name == "_generate_base_scalars"), None)
+        if gen is None:
+            raise AnalysisError(f"C15/X8: {c_.name}._generate_base_scalars not found")
+        calls = [x for x in ast.walk(gen) if isinstance(x, ast.Call) and (dotted(x.func) or "").split(".")[-1] == "Symbol"]
+        if len(calls) != 3:
+            raise AnalysisError(f"C15/X8: {c_.name}._generate_base_scalars does not create three symbols")
+        declared[CLASSES[c_.name]] = [{k.arg: k.value.value for k in call.keywords if isinstance(k.value, ast.Constant) and isinstance(k.value.value, bool)} for call in calls]
+
+    class _Scalar:
+        def __init__(self, tag, k, flags):
+            self.tag, self.k, self.flags = tag, k, flags
+
+    class R(PyReader):
+
+        def hook_attr(self, base, attr, n):
+            if isinstance(base, _XSys) and attr == "base_scalars":
+                return [_Scalar(base.tag, k, declared[base.tag][k]) for k in range(3)]
+            if isinstance(base, _Scalar) and attr.startswith("is_"):
+                fl = base.flags
+                pos, nonneg, real = fl.get("positive"), fl.get("nonnegative"), fl.get("real")
+                table = {"is_positive": True if pos else None, "is_nonnegative": True if (pos or nonneg) else None, "is_negative": False if (pos or nonneg) else None,
+                         "is_nonpositive": False if pos else None, "is_real": True if (real or pos or nonneg) else None, "is_zero": False if pos else None}
+                if attr in table:
+                    return table[attr]
+            return NotImplemented
+
+        def hook_call(self, n, env, fns):
+            name = (dotted(n.func) or "").split(".")[-1]
+            if name in ("sympify_expr", "sympify") and n.args and name not in self.functions:
+                return self.ev(n.args[0], env, fns)
+            if name == "isinstance" and len(n.args) == 2:
+                v = self.ev(n.args[0], env, fns)
+                names = set(self.class_names(n.args[1]))
+                if isinstance(v, list):
+                    return bool(names & {"Sized", "Sequence", "Iterable", "list", "tuple", "Collection"})
+            return NotImplemented
+
+    from fractions import Fraction as _Fr
+    for tag in "CYS":
+        for label, coords in (("generic", [var("g0"), var("g1"), var("g2")]), ("negative numbers", [num(_Fr(-1, 2)), num(-2), num(_Fr(-3, 4))]),
+                              ("mixed", [num(2), num(_Fr(-1, 3)), var("g2")])):
+            run.ob("X8", f"{NAMES[tag]}:{label}")
+            rd = R(pm.tree, "points/__init__.py", depth_limit=6)
+            try:
+                if prep is not None:
+                    got = rd.call("_prepare", [list(coords), _XSys(tag)])
+                else:
+                    raise AnalysisError("C15/X8: _prepare not found (the preparation of coordinates moved: re-derive the rule)")
+            except Raised as r_:
+                run.violate("X8", f"{PTS}:_prepare:raises", pm, pm.tree, f"preparing the coordinates {label} of a {NAMES[tag]} point raises {r_.exc}")
+                continue
+            ok = isinstance(got, dict) and len(got) == 3
+            if ok:
+                items = list(got.items())
+                ok = all(isinstance(k_, _Scalar) and k_.tag == tag and k_.k == i_ and (v_ is coords[i_] or (isinstance(v_, T) and same_terms(v_, coords[i_])))
+                         for i_, (k_, v_) in enumerate(items))
+            if not ok:
+                run.violate("X8", f"{PTS}:_prepare:coordinates", pm, prep,
+                            f"a {NAMES[tag]} point built from the coordinates {label} {coords!r} does not store exactly those, one per base scalar in order "
+                            f"(got {({repr((k_.tag, k_.k)): v_ for k_, v_ in got.items()} if isinstance(got, dict) else got)!r}): a coordinate rewritten to fit an assumption of its base scalar "
+                            f"(a negative azimuth turned into its absolute value) is another point")
+                return
 
 
 class _XSys:
